@@ -72,9 +72,10 @@ Fixpoint assoc {A} (l : list (nat * A)) (p : nat) : option A :=
   match l with [] => None | (q, v) :: t => if Nat.eqb p q then Some v else assoc t p end.
 
 (* fast-scan dump F against the normal dump N, per pattern reported in both:
-   ineligible: equal; eligible: at most one match, one iff N has some, taken from N *)
+   ineligible: equal; eligible: the matches of one verified hit - some iff N
+   has some, all taken from N *)
 Definition fast_k_pattern (el fixed : bool) (N F : list mt) : bool :=
-  if el then (Nat.leb (List.length F) 1) && Bool.eqb (nonempty F) (nonempty N) && forallb (fun m => has_mt fixed m N) F
+  if el then Bool.eqb (nonempty F) (nonempty N) && forallb (fun m => has_mt fixed m N) F
   else mts_eqb F N.
 
 Definition scan_k (rules : list fcond) (bits fixed_len : list bool) (dumps : list sdump) : bool :=
